@@ -16,7 +16,7 @@ import (
 
 func c19(c *h.Ctx) {
 	c.Rule = "prefixed / raw decorators in-process with a synchronised sink recording every Write: streams of 1..12 lines of 0..10000 bytes (incl. 4090..4100 around the buffer size), LF / CRLF / lone CR / unterminated tail, ANSI sequences (CSI, OSC..BEL) at random places, split into write calls 1-byte / tiny / medium / large / single, with empty writes, splits inside CRLF and (half of the cases) inside an ANSI sequence; 1..8 tasks with disjoint payload alphabets writing from their own goroutines; race-detector pass. Formats x outcomes {success, failing command, allowed failure, skipped, failing before-hook, failing context up} under raw / prefixed / cockpit in child processes and through the CLI. non-trivial = distinct cases whose stream was split inside a line or that had >=2 concurrent tasks"
-	c.Assumptions = []string{"number and position of line breaks, empty lines and what cockpit draws are not examined", "attribution is decidable because the tasks' payload alphabets are disjoint", "the ANSI language is the decorator's own regular expression, applied after re-joining on both sides as the statement prescribes"}
+	c.Assumptions = []string{"write boundaries do not fall between the two bytes (C2 9B) that encode the one-character CSI introducer U+009B", "number and position of line breaks, empty lines and what cockpit draws are not examined", "attribution is decidable because the tasks' payload alphabets are disjoint", "the ANSI language is the decorator's own regular expression, applied after re-joining on both sides as the statement prescribes"}
 	anchors := []string{"pkg/output/prefixed.go", "pkg/output/raw.go", "pkg/output/cockpit.go", "pkg/output/output.go"}
 	runWorkers(c, workerOpts{Mode: "deco", Shards: 8, Timeout: 15 * time.Minute})
 	runWorkers(c, workerOpts{Mode: "deco", Race: true, Shards: 8, Timeout: 15 * time.Minute, Anchors: anchors})
